@@ -60,6 +60,7 @@ class Transition:
         "samples",
         "check",
         "depth",
+        "pre_state_flag",
     )
 
     def program(self):
@@ -148,6 +149,7 @@ def _expand(task):
                 tr.counters, tr.violations, tr.samples = counters, violations, samples
                 tr.outcome = None
                 tr.nontrivial = False
+                tr.pre_state_flag = None
                 tr.check = check
                 tr.depth = len(idxs) + 1
                 tr.rel, tr.exc = _lib_step(ctx, rel, op)
@@ -355,6 +357,7 @@ def replay_case(check: Check, case):
     tr.parent_rel, tr.parent_val = rel, val
     tr.counters, tr.violations, tr.samples = collections.Counter(), [], []
     tr.outcome, tr.nontrivial, tr.check, tr.depth = None, False, check, len(prog) - 1
+    tr.pre_state_flag = None
     tr.rel, tr.exc = _lib_step(ctx, rel, tr.op)
     tr.val, tr.rej, tr.ooc = _ref_step(val, tr.op, scen, tr.rel)
     check.judge(tr)
